@@ -66,7 +66,27 @@ def size(enc):
     return 1
 
 
-def decode(enc, valuation, rnd=None, pick=0):
+class MyDict(dict):
+    """a plain dictionary subclass (duck typing: the functions test isinstance(x, dict))"""
+
+
+CTX_CLASSES = []          # classes used for decoded contexts (filled by the checks: dict, Context, MyDict)
+KEY_POOL = ["", 0, None, 1.5, "k", "b", "a"]      # Python keys that may stand for a key of the model
+
+
+def random_keymap(rnd, keys=("a", "b", "c")):
+    """injective map from the model's keys to Python keys, falsy and non-string ones included"""
+    return dict(zip(keys, rnd.sample(KEY_POOL, len(keys))))
+
+
+def as_class(obj, cls):
+    """the same nested dictionary with every dictionary an instance of cls"""
+    if isinstance(obj, dict):
+        return cls(dict((k, as_class(v, cls)) for k, v in obj.items()))
+    return obj
+
+
+def decode(enc, valuation, rnd=None, pick=0, keymap=None):
     """Instantiate an encoded dictionary.  valuation: symbol -> index into PYCLASSES."""
     if is_d(enc):
         its = list(items(enc))
@@ -74,7 +94,9 @@ def decode(enc, valuation, rnd=None, pick=0):
             rnd.shuffle(its)
         else:
             its.sort()
-        return dict((k, decode(v, valuation, rnd, pick)) for k, v in its)
+        return dict((keymap.get(k, k) if keymap else k, decode(v, valuation, rnd, pick, keymap)) for k, v in its)
+    if enc.get("e") == 50:
+        return enc["v"]           # a key used as a string value (str_to_dict without value)
     ctors = PYCLASSES[valuation[enc["v"]]][2]
     if rnd is not None:
         return rnd.choice(ctors)()
@@ -283,7 +305,26 @@ class Fails(object):
 
 
 # ---------------------------------------------------------------- C08: leaves with str(), special leaves
-def decode_s(enc, valuation, special, rnd=None, reps=True):
+class Unprintable(object):
+    """a value whose str() raises (contains: "its string representation is used")"""
+
+    def __str__(self):
+        raise RuntimeError("unprintable")
+
+    def __repr__(self):
+        return "Unprintable()"
+
+    def __eq__(self, other):
+        return isinstance(other, Unprintable)
+
+    def __ne__(self, other):
+        return not self == other
+
+    def __hash__(self):
+        return 7
+
+
+def decode_s(enc, valuation, special, rnd=None, reps=True, cls=None):
     """like decode, for the leaves of spec/CtxOpsRef.tla: kb / $key are the string in field s,
     $default / $rendered / $value come from *special*"""
     if is_d(enc):
@@ -292,8 +333,13 @@ def decode_s(enc, valuation, special, rnd=None, reps=True):
             rnd.shuffle(its)
         else:
             its.sort()
-        return dict((k, decode_s(v, valuation, special, rnd, reps)) for k, v in its)
+        if cls is None:
+            # the context object itself may be an instance of a dictionary subclass
+            cls = rnd.choice(CTX_CLASSES) if (rnd is not None and CTX_CLASSES) else dict
+        return cls(dict((k, decode_s(v, valuation, special, rnd, reps, cls)) for k, v in its))
     v = enc["v"]
+    if v == "ku":
+        return Unprintable()
     if v in ("kb", "$key"):
         return enc["s"]
     if v in special:
@@ -369,7 +415,8 @@ def lookup(d, path):
 
 
 def template_text(tpl):
-    return "".join(t["s"] if t["t"] == "lit" else "{{" + ".".join(t["p"]) + "}}" for t in tpl)
+    return "".join(t["s"] if t["t"] == "lit"
+                   else "{{" + ".".join(t["p"]) + ("!" + t["cv"] if t.get("cv") else "") + "}}" for t in tpl)
 
 
 def dotted_ok(path):
